@@ -217,6 +217,20 @@ theorem C09_filter_ext_rule (a kw v : Bytes) (rule : Option Bytes) (dn : Bool) (
   gparse_of_G (ext_G ((attrDescOk_iff a).mp ha) hk (fun r h => (oidOk_iff r).mp (ho r h)) hn (rvalF_ldapEscape v))
     (by simp [Filter.fdepth, Filter.maxNesting])
 
+/-- The documented extension, an item WITHOUT the outer parentheses (`a=<ldap_escape v>`, and likewise `>=` `<=`
+`~=` `:=`): the value then runs to the very end of the string, and the node still carries exactly `v` — a value
+ending in a space, a tab or a newline included: nothing is trimmed.  (Seeded change C09d trimmed ASCII white space
+from the filter string "for filters read from configuration files": in the parenthesised form the `)` shields the
+value, in this form nothing does; `ldap_escape` rightly leaves white space alone.) -/
+theorem C09_filter_inert_bare (it : Spec.Filter.ValItem) (ha : attrDescOk it.attr = true) (v : Bytes) :
+    (Filter.parse (it.attr ++ it.op ++ ldapEscape v)).map Tag.toTlv = some (Spec.Filter.toTlv (it.tree v)) :=
+  gparse_bare it ((attrDescOk_iff _).mp ha) (rvalF_ldapEscape v)
+
+/-- `cn=v␠` (value `v` followed by a space) is the equality match with the two-octet value -/
+example : (Filter.parse ([0x63, 0x6E, 0x3D] ++ ldapEscape [0x76, 0x20])).map Tag.toTlv =
+    some (Spec.Filter.toTlv (.eq [0x63, 0x6E] [0x76, 0x20])) :=
+  C09_filter_inert_bare (.eq [0x63, 0x6E]) (by decide) [0x76, 0x20]
+
 /-- Structure: put `(a op <ldap_escape v>)` (`op` one of `=` `>=` `<=` `~=` `:=`) anywhere inside a
 boolean structure — any nesting of `(&…)` `(|…)` `(!…)`, any sibling filters of the language before
 and after it at each level (`Ctx`, Spec/FilterCtx.lean).  The result is that structure with exactly
